@@ -553,6 +553,18 @@ var cutConds = []cutCond{
 	{"rst-internal", errors.New("stream error: stream ID 1; INTERNAL_ERROR; received from peer")},
 }
 
+// withoutRejected drops the placeholders a keep-receiving handler records for
+// failed Receives.
+func withoutRejected(msgs [][]byte) [][]byte {
+	var out [][]byte
+	for _, m := range msgs {
+		if string(m) != "<rejected>" {
+			out = append(out, m)
+		}
+	}
+	return out
+}
+
 func isPrefixOf(got, all [][]byte) bool {
 	if len(got) > len(all) {
 		return false
@@ -569,6 +581,13 @@ func directC04(tt *testing.T, tape *core.Tape, tier string, r *RunResult) {
 	small := tape.Bool(1, 2, "small.bodies")
 	sc := genExchange(tape, 3, small, false)
 	sc.Prop = "C04"
+	if sc.Calls[0].Kind == KBidi && tape.Bool(1, 2, "keep.receiving") {
+		// a handler that calls Receive again after a failed one (logging the
+		// error and carrying on): what it is told then must not be "the client
+		// finished cleanly"
+		sc.Calls[0].KeepReceiving = true
+		r.Probes["handler_keeps_receiving"]++
+	}
 	rec := record(tape, sc, r)
 	if rec == nil {
 		return
@@ -735,7 +754,7 @@ func directC04(tt *testing.T, tape *core.Tape, tier string, r *RunResult) {
 				r.Probes["dontcare_unary_connect_clean_cut"]++
 				continue
 			}
-			if !isPrefixOf(o.H.Recv, rec.handler.Msgs) {
+			if !isPrefixOf(withoutRejected(o.H.Recv), rec.handler.Msgs) {
 				addV("request/messages-not-a-prefix", where+": the handler received messages that are not a prefix of those sent")
 			}
 			midMessage := !atBoundary(k) || !clean
@@ -860,7 +879,7 @@ func directC04(tt *testing.T, tape *core.Tape, tier string, r *RunResult) {
 			}
 			o := w.Obs[0]
 			r.Probes["uplink_failures"]++
-			if !isPrefixOf(o.H.Recv, rec.handler.Msgs) {
+			if !isPrefixOf(withoutRejected(o.H.Recv), rec.handler.Msgs) {
 				addV("uplink-failure/messages-not-a-prefix", where)
 			}
 			if k < len(rec.reqBody) {
